@@ -26,11 +26,13 @@ Sw   == [wrapFeerate |-> IOEnv.CP_WRAP_FEERATE = "true"]
 ObsOf(c, ev) == CASE ev = "setup" -> c.obs.setup
                   [] ev = "open" -> c.obs.open
                   [] ev \in {"chain", "chain2"} -> "ok"
+                  [] ev = "advance" -> c.obs.adv
                   [] ev = "request1" -> c.obs.res1
                   [] ev = "request" -> c.obs.res
 ClsOf(c, ev) == CASE ev = "setup" -> c.obs.setup_cls
                   [] ev = "open" -> c.obs.open_cls
                   [] ev \in {"chain", "chain2"} -> "none"
+                  [] ev = "advance" -> IF c.obs.adv = "ok" THEN "none" ELSE "state"
                   [] ev = "request1" -> c.obs.res1_cls
                   [] ev = "request" -> c.obs.res_cls
 \* the harness names the refusing check after its message; the model names the rule
@@ -44,6 +46,11 @@ Detail(c, s, ev) ==
   ELSE IF c.kind = "seq" /\ ev = "request" /\ Fresh(s, c.side, c.n, c.req)
             /\ \E t \in s.acc : t[1] = c.side /\ t[2] = c.n
          THEN "changed-contents-for-an-accepted-number"
+  ELSE IF c.kind = "seq" /\ c.seq.adv /\ ev = "request"
+            /\ \E t \in s.acc : t[1] = c.side /\ t[2] = c.n - 1
+                                 /\ (   (\E i \in 1..Len(c.req.off) : \E j \in 1..Len(t[3].off) : c.req.off[i] = t[3].off[j])
+                                     \/ (\E x \in 1..Len(c.req.rcv) : \E y \in 1..Len(t[3].rcv) : c.req.rcv[x] = t[3].rcv[y]))
+         THEN "htlc-carried-over-from-the-previous-commitment"
   ELSE LET r    == IF ev = "open" THEN c.pre.holder ELSE ReqOfEv(c, ev)
            outs == Outputs(r) IN
        IF ~FitsU64(outs) THEN "sum>=2^64"
@@ -99,7 +106,7 @@ ReportOf(S) ==
   LET All == Flat(S)
       At(p) == S[p[1]][p[2]]
       Violating == {p \in All : At(p).obs = "ok" /\ At(p).binding # {}}
-      Stricter  == {p \in All : At(p).obs = "refused" /\ At(p).binding = {} /\ At(p).ev \notin {"chain", "chain2"}}
+      Stricter  == {p \in All : At(p).obs = "refused" /\ At(p).binding = {} /\ At(p).ev \notin {"chain", "chain2", "advance"}}
       Panicked  == {p \in All : At(p).obs = "panic"}
       Diverging == {p \in All : LET s == At(p) IN
                       /\ s.obs # "panic"
@@ -122,7 +129,7 @@ ReportOf(S) ==
   IN
   [ records      |-> NLog,
     steps        |-> Cardinality(All),
-    accepted     |-> Cardinality({p \in All : At(p).obs = "ok" /\ At(p).ev \notin {"chain", "chain2"}}),
+    accepted     |-> Cardinality({p \in All : At(p).obs = "ok" /\ At(p).ev \notin {"chain", "chain2", "advance"}}),
     refused      |-> Cardinality({p \in All : At(p).obs = "refused"}),
     panics       |-> Cardinality(Panicked),
     panic_samples |-> Some(Panicked, 5),
